@@ -5,6 +5,8 @@
 
 #pragma once
 
+#include "verif_hook.h"
+
 namespace yakushima {
 
 /**
@@ -12,6 +14,7 @@ namespace yakushima {
  */
 template<typename T>
 static T loadRelaxed(T& ptr) {
+    YAKUSHIMA_VERIF_YIELD(Y_LOAD | Y_CAT_NODE, &ptr);
     return __atomic_load_n(&ptr, __ATOMIC_RELAXED); // NOLINT
 }
 
@@ -20,11 +23,13 @@ static T loadRelaxed(T& ptr) {
  */
 template<typename T>
 static T loadAcquireN(T& ref) {                     // NOLINT
+    YAKUSHIMA_VERIF_YIELD(Y_LOAD | Y_CAT_NODE, &ref);
     return __atomic_load_n(&ref, __ATOMIC_ACQUIRE); // NOLINT
 }
 
 template<class type>
 void loadAcquire(type* ptr, type* ret) {
+    YAKUSHIMA_VERIF_YIELD(Y_LOAD | Y_CAT_NODE, ptr);
     __atomic_load(ptr, ret, __ATOMIC_ACQUIRE); // NOLINT
 }
 
@@ -33,6 +38,7 @@ void loadAcquire(type* ptr, type* ret) {
  */
 template<typename T, typename T2>
 static void storeRelaxed(T& ptr, T2 val) {
+    YAKUSHIMA_VERIF_YIELD(Y_STORE | Y_CAT_NODE, &ptr);
     __atomic_store_n(&ptr, static_cast<T>(val), __ATOMIC_RELAXED); // NOLINT
 }
 
@@ -41,11 +47,13 @@ static void storeRelaxed(T& ptr, T2 val) {
  */
 template<typename T, typename T2>
 static void storeReleaseN(T& ptr, T2 val) {
+    YAKUSHIMA_VERIF_YIELD(Y_STORE | Y_CAT_NODE, &ptr);
     __atomic_store_n(&ptr, static_cast<T>(val), __ATOMIC_RELEASE); // NOLINT
 }
 
 template<class type>
 void storeRelease(type* ptr, type* val) {
+    YAKUSHIMA_VERIF_YIELD(Y_STORE | Y_CAT_NODE, ptr);
     __atomic_store(ptr, val, __ATOMIC_RELEASE); // NOLINT
 }
 
@@ -54,6 +62,7 @@ void storeRelease(type* ptr, type* val) {
  */
 template<typename type>
 bool weakCompareExchange(type* ptr, type* expected, type* desired) {
+    YAKUSHIMA_VERIF_YIELD(Y_CAS | Y_CAT_NODE, ptr);
     /**
      * Built-in Function: bool __atomic_compare_exchange_n
      * (type *ptr, type *expected, type desired, bool weak, int success_memorder, int
